@@ -24,10 +24,12 @@ Judge(e) ==
                 <<V("C08", "stanza-on-the-wire-whole-never-interleaved", Mode, [first |-> bad[1], n |-> Len(bad)])>>
         per(s) == LET ws == WireOf(s)
                       idx == [k \in 1..Len(ws) |-> ws[k].i]
-                      dup == \E a, b \in 1..Len(idx) : a # b /\ idx[a] = idx[b]
+                      \* (a retransmission legitimately repeats a stanza on the wire, out of the call order: when the server
+                      \* answered during the run - e.acks - only loss, wholeness and what is held at the end are judged)
+                      dup == ~e.acks /\ \E a, b \in 1..Len(idx) : a # b /\ idx[a] = idx[b]
                       lost == \E i \in OkIdx(s) : ~\E a \in 1..Len(idx) : idx[a] = i
                       extra == \E a \in 1..Len(idx) : idx[a] \notin OkIdx(s) /\ ~e.faulted
-                      ooo == \E a, b \in 1..Len(idx) : a < b /\ idx[a] > idx[b]
+                      ooo == ~e.acks /\ \E a, b \in 1..Len(idx) : a < b /\ idx[a] > idx[b]
                   IN (IF dup THEN <<V("C08", "nothing-duplicated", Mode, [s |-> s, wire |-> idx])>> ELSE <<>>) \o
                      (IF lost THEN <<V("C08", "successful-send-is-on-the-wire", Mode, [s |-> s, wire |-> idx, ok |-> OkIdx(s)])>> ELSE <<>>) \o
                      (IF extra THEN <<V("C08", "failed-write-reported-as-error", Mode, [s |-> s, wire |-> idx, ok |-> OkIdx(s)])>> ELSE <<>>) \o
